@@ -100,7 +100,7 @@ def clearSets : List (String × String) := ctorInits
 def skel : Skel where
   prologue  := [.clear, .bestSol 0 0, .bestEval, .esInit]
   loopInit  := [.setGen 0]
-  genHead   := [.ifShake, .azStats]
+  genHead   := [.ifShake (.atom "shake(stats_.gen)"), .azStats]
   step      := [.select, .recombine, .replace]
   genTail   := [.esAfterGen, .callback]
   loopIncr  := [.incGen]
@@ -462,8 +462,9 @@ structure EvoCtx (α F : Type) where
   dflt  : α
   dfltF : F
 
-/-- meaning of one skeleton token.  `ifShake` is skipped: the property (and `run(unsigned)`, whose
-    `shake` returns false – `GenEvo.noShakeDefault`) is about runs without a data shake;
+/-- meaning of one skeleton token in a run WITHOUT data shake (`run(unsigned)`, whose `shake` returns
+    false – `GenEvo.noShakeDefault`): `ifShake` is skipped.  Runs with an arbitrary shake functor are
+    `execTokD` / `evoRunSkD` (Shake.lean), which agree with this interpreter when no shake fires;
     `select / recombine / replace` are one `stepFn` (see `stepSk`); `esInit` has an empty body in
     every strategy, `azStats`, `callback`, `ret` do not write population or summary. -/
 def execTok (e : EvoCtx α F) (ag : AlpsAG) (st : St α F) : Tok → St α F
@@ -525,12 +526,29 @@ theorem evoRunSk_model (e : EvoCtx α F) (st : St α F) (gens : List (List (Step
   have : genSk Model.skel e = generation e.loop := by funext s g; exact genSk_model e s g
   simp [evoRunSk, runModel, this]
 
-/-- the transitions of a session: the steps of a run, and the start of the next run on the same
-    object (population carried over, summary restarted) -/
+/-- a data shake as a monitor of the real run sees it.  The monitor's individuals are *observed*
+    individuals (the evaluator's score under the data current at the time of the observation is part
+    of the observation, `cfg.eval` reads it), so after `shake(gen)` has changed the data every member
+    is re-observed: same places, same capacities, same well-formedness, new scores.  The summary keeps
+    `last_imp` and `gen`; the best-so-far fitness is the score of the best-so-far individual UNDER THE
+    NEW DATA (the re-evaluation `stats_.best.score.fitness = eva_(stats_.best.solution)` of the shake
+    branch).  (The data-indexed model of the branch itself is `execTokD`, Shake.lean.) -/
+structure ShakeRel (cfg : Cfg α F) (st st' : St α F) : Prop where
+  layers    : LayerInv st'.pop
+  shape     : st'.pop.shape = st.pop.shape
+  wf_all    : ∀ x ∈ st'.pop.members, cfg.wf x = true
+  best_wf   : cfg.wf st'.sum.best = true
+  best_eval : st'.sum.bestFit = cfg.eval st'.sum.best
+  last_imp  : st'.sum.lastImp = st.sum.lastImp
+  gen       : st'.sum.gen = st.sum.gen
+
+/-- the transitions of a session: the steps of a run, the start of the next run on the same
+    object (population carried over, summary restarted), and a data shake at the head of a generation -/
 inductive MTrans (cfg : Cfg α F) (t : ClearTbl) (d : α) (df : F) : St α F → St α F → Prop
   | run (st st' : St α F) : Trans cfg st st' → MTrans cfg t d df st st'
   | restart (st st' : St α F) : st'.pop = st.pop →
       st'.sum = startSumm cfg.eval t d df (st.pop.get? (0, 0)) st.sum → MTrans cfg t d df st st'
+  | shake (st st' : St α F) : ShakeRel cfg st st' → MTrans cfg t d df st st'
 
 inductive MReach (cfg : Cfg α F) (t : ClearTbl) (d : α) (df : F) : St α F → St α F → Prop
   | refl (st : St α F) : MReach cfg t d df st st
@@ -578,6 +596,9 @@ theorem mtrans_inv (cfg : Cfg α F) (t : ClearTbl) (d : α) (df : F) (ok : Clear
   cases ht with
   | run h => exact trans_inv cfg shape0 st st' hi h
   | restart hp hs => exact restart_inv cfg t d df ok shape0 st st' hi hp hs
+  | shake h =>
+    exact ⟨h.wf_all, h.layers, fun hs => by rw [h.shape]; exact hi.size_const hs, h.best_eval, h.best_wf,
+      by rw [h.last_imp, h.gen]; exact hi.last_imp⟩
 
 /-- the run invariant holds in every state of every run of a session -/
 theorem mreach_inv (cfg : Cfg α F) (t : ClearTbl) (d : α) (df : F) (ok : ClearOK cfg t d)
